@@ -14,6 +14,8 @@ LEVEL = 'exploration'
 
 NAMES = ['a', 'a b', '"q"', "it's", '{x}', '}}', 'a}} --> 9{{b', '<b>', '</script>', '</div>', '$x', '${y}', 'a:b', 'ü—名',
          '&amp;', '<!--', 'a<b', '{{', ']]>', '\\', '%%c', "'; alert(1); '",
+         # words that are literals of the languages the pages are written in
+         'Triage False alarms', 'True', 'None of these', 'null and undefined',
          # the names of the page templates' own placeholders
          'in $styles x', '$src', '${styles}', '$gantt_data $columns', '$task_classes_def', '$today_marker $scale $root $readonly $row_height']
 
